@@ -152,8 +152,21 @@ def insertVar (x : Nat) : List Nat → List Nat
   | y :: ys => if x < y then x :: y :: ys else if x = y then y :: ys else y :: insertVar x ys
 def normVars (l : List Nat) : List Nat := l.foldr insertVar []
 
-/-- the constraint does not depend on the listed variables (`expression().all_zeroes(vars)`) -/
+/-- the constraint does not depend on the listed variables -/
 def Con.allZeroOn (c : Con) (vars : List Nat) : Bool := vars.all fun i => c.at i == 0
+
+/-- the space dimension of a row: one more than its last variable with a non-zero coefficient -/
+def conDim (c : Con) : Nat := (c.coeffs.reverse.dropWhile (· == 0)).length
+/-- `cs.space_dimension()` -/
+def guardSpaceDim (cs : List Con) : Nat := cs.foldl (fun m c => max m (conDim c)) 0
+
+/-- `j->expression().all_zeroes(vars)` as executed by `wrap_assign_ind`: the rows of `*cs_p` have `d`
+    variables, `vars` may mention higher dimensions (the precondition
+    `vars.space_dimension() <= space_dimension()` of `all_zeroes` is not established): index `d` then
+    reads the ε coefficient of a not-necessarily-closed system (non-zero exactly for the strict rows),
+    higher indexes are beyond the (sparse) row and read as zero. -/
+def allZeroesAsRead (d : Nat) (eps : Bool) (c : Con) (vars : List Nat) : Bool :=
+  vars.all fun i => if i < d then c.at i == 0 else if i = d ∧ eps = true then !c.strict else true
 
 /-- `refine_with_constraint(min_value <= x); refine_with_constraint(x <= max_value)` -/
 def refineRange (d : Dom) (cfg : WrapCfg) (p : d.D) (x : Nat) : d.D :=
@@ -167,7 +180,8 @@ def wrapInd (d : Dom) (cfg : WrapCfg) (cs : List Con) : List Tr → d.D → List
     let hull := (quadrants t.first t.last).foldl (fun hull q =>
       let p := shiftTo d cfg.w ps t.var q
       let p := if vars'.isEmpty then d.refineAll p cs
-               else cs.foldl (fun p c => if Con.allZeroOn c vars' then d.refine p c else p) p
+               else cs.foldl (fun p c =>
+                 if allZeroesAsRead (guardSpaceDim cs) (cs.any (·.strict)) c vars' then d.refine p c else p) p
       d.join hull (refineRange d cfg p t.var)) (d.botLike ps)
     wrapInd d cfg cs rest hull vars'
 
